@@ -54,6 +54,25 @@ def batch(sess, suite, k, bad_pos, kind):
         items[a]["z"] = fld.enc(fld.dec(items[a]["z"]) + 1)
         items[b]["z"] = fld.enc(fld.dec(items[b]["z"]) - 1)
         expect_valid = False
+    elif kind == "triplez" and k >= 3:
+        # deviations +d, -2d, +d at equally spaced positions: they cancel under any blinders that are AFFINE in the position
+        step = max(1, (k - 1) // 2)
+        a = rng.randrange(0, k - 2 * step)
+        d = 1 + rng.randrange(1000)
+        for pos, mult in ((a, 1), (a + step, -2), (a + 2 * step, 1)):
+            items[pos]["z"] = fld.enc(fld.dec(items[pos]["z"]) + mult * d)
+        bad_pos = [a, a + step, a + 2 * step]
+        expect_valid = False
+    elif kind == "replay" and k >= 2:
+        # an item whose key and signature are byte-identical to an earlier valid item, under ANOTHER message
+        a = rng.randrange(0, k - 1)
+        b = rng.randrange(a + 1, k)
+        items[b] = dict(items[a], msg=items[a]["msg"] + "ff")
+        bad_pos = [b]
+        expect_valid = False
+    elif kind == "samekey-aba" and k >= 3:
+        # valid items whose keys re-appear after an item under another key (A, B, A, ...)
+        pass
     elif kind == "pairR" and len(bad_pos) >= 2:
         a, b = bad_pos[0], bad_pos[1]
         X = items[a]["vk"]
@@ -105,6 +124,7 @@ def generate(sess):
     rng = sess.rng
     thorough = sess.tier != "quick"
     kinds = ["msg", "key", "z", "R", "pairz", "pairR"]
+    crafted = ["triplez", "replay"]
     for suite in TOY_SUITES:
         sizes = list(range(0, 65)) if thorough else [0, 1, 2, 3, 5, 8, 17, 64]
         for k in sizes:
@@ -116,10 +136,15 @@ def generate(sess):
                 for kind in ("pairz", "pairR"):
                     batch(sess, suite, k, rng.sample(range(k), 2), kind)
                 batch(sess, suite, k, rng.sample(range(k), 2), rng.choice(kinds[:4]))
+            for kind in crafted:
+                if k >= 3:
+                    batch(sess, suite, k, [], kind)
     for rep in range(3 if thorough else 1):
         for suite in REAL_SUITES:
             for k in ([0, 1, 2, 7, 20] if thorough else [0, 1, 4]):
                 batch(sess, suite, k, [], "valid")
+            for kind in crafted:
+                batch(sess, suite, rng.randrange(3, 8), [], kind)
             for kind in (kinds if thorough else rng.sample(kinds, 3)):
                 k = rng.randrange(2, 6)
                 batch(sess, suite, k, rng.sample(range(k), 2 if kind.startswith("pair") else 1), kind)
